@@ -30,6 +30,7 @@
         (get-output-bytevector out))
        ((>= col (- max-col 3))
         (write-bytevector (bytevector-copy buf 0 col) out)
+        (write-bytevector separator out)   ; soft line break
         (lp i 0))
        (else
         (let ((c (bytevector-u8-ref bv i)))
@@ -97,7 +98,7 @@
            (effective-max-col (- max-col prefix-length)))
       (bytevector-append
        (string->utf8 prefix)
-       (qp-encode (if (string? src) src (port->string src))
+       (qp-encode (string->utf8 (if (string? src) src (port->string src)))
                   start-col effective-max-col separator)
        (string->utf8 "?=")))))
 
@@ -148,7 +149,10 @@
                      (let ((c3 (bytevector-u8-ref bv (+ i 2))))
                        (if (hex? c3) (write-u8 (unhex c2 c3) out))
                        (lp (+ i 3))))
-                    (else (lp (+ i 3))))))))
+                    (else (lp (+ i 3))))))
+                (else
+                 ;; "=" or a soft line break at the very end of the input
+                 (get-output-bytevector out))))
               ((95)                    ; maybe translate _ to space
                (write-u8 (if mime-header? 32 c) out)
                (lp (+ i 1)))
@@ -158,16 +162,15 @@
                   ((not (= j end))
                    (case (bytevector-u8-ref bv j)
                      ((32 9) (lp2 (+ j 1)))
-                     ((10)
-                      (lp (+ j 1)))
-                     ((13)
-                      (let ((k (+ j 1)))
-                        (lp (if (and (< k end)
-                                     (eq? 10 (bytevector-u8-ref bv k)))
-                                (+ k 1) k))))
+                     ((10 13)
+                      ;; drop the trailing blanks, keep the line break
+                      (lp j))
                      (else
                       (write-bytevector (bytevector-copy bv i j) out)
-                      (lp j)))))))
+                      (lp j))))
+                  (else
+                   ;; trailing blanks at the end of the input
+                   (get-output-bytevector out)))))
               (else                     ; a literal char
                (write-u8 c out)
                (lp (+ i 1)))))))))))
